@@ -38,7 +38,7 @@ ATTRS = {
     "Sphere": ["position", "orientation", "diameter", "polarization", "magnetization"],
     "Tetrahedron": ["position", "orientation", "vertices", "polarization", "magnetization"],
     "Triangle": ["position", "orientation", "vertices", "polarization", "magnetization"],
-    "TriangularMesh": ["position", "orientation", "polarization", "magnetization"],
+    "TriangularMesh": ["position", "orientation", "polarization", "magnetization", "vertices", "faces"],
     "Circle": ["position", "orientation", "diameter", "current"],
     "Polyline": ["position", "orientation", "vertices", "current"],
     "Dipole": ["position", "orientation", "moment"],
@@ -114,7 +114,7 @@ def classify(cls, attr, v):
         return "malformed"
     # vector-like attributes
     if v is None:
-        return "valid" if attr not in ("position",) else "malformed"
+        return "valid" if attr not in ("position",) and not (cls == "TriangularMesh" and attr in ("vertices", "faces")) else "malformed"
     if not seq:
         return "malformed"  # scalars / strings / other objects
     if has_str(v):
@@ -164,6 +164,15 @@ def classify(cls, attr, v):
         if r1 == r2 or p1 == p2:
             return "unspecified"  # zero-volume segment: documentation says r1<r2, phi1<phi2; code allows equality
         return "valid"
+    if cls == "TriangularMesh" and attr in ("vertices", "faces"):
+        # constructor-only; judged against a reference mesh of 4 vertices / 4 faces (see construct())
+        if len(sh) != 2 or sh[1] != 3 or sh[0] < 1:
+            return "malformed"
+        if attr == "vertices":
+            return "valid" if sh[0] >= 4 else "unspecified"
+        if np.any(a != np.round(a)) or np.any(a < 0):
+            return "unspecified"  # truncated by astype(int) / python negative indexing: not documented
+        return "valid" if np.all(a < 4) else "malformed"
     if attr == "vertices":
         if cls == "Tetrahedron":
             if sh != (4, 3):
@@ -192,6 +201,10 @@ def valid_value(rng, cls, attr):
     if attr == "pixel":
         shp = [(3,), (2, 3), (2, 2, 3), (1, 3)][int(rng.integers(0, 4))]
         return rng.normal(size=shp).tolist()
+    if cls == "TriangularMesh" and attr == "vertices":
+        return (np.array([(0, 0, 0), (1, 0, 0), (0, 1, 0), (0, 0, 1.0)]) + rng.normal(size=(4, 3)) * 0.05).tolist()
+    if cls == "TriangularMesh" and attr == "faces":
+        return [(0, 2, 1), (0, 1, 3), (1, 2, 3), (0, 3, 2)]
     if attr == "handedness":
         return str(rng.choice(["right", "left"]))
     if attr == "field_func":
@@ -332,6 +345,10 @@ def construct(cls, spec, attr, value):
             kw[k] = spec[k]
     if attr == "magnetization":
         kw.pop("polarization", None)
+    if cls == "TriangularMesh" and attr in ("vertices", "faces"):
+        kw["vertices"] = [(0, 0, 0), (1, 0, 0), (0, 1, 0), (0, 0, 1)]
+        kw["faces"] = [(0, 2, 1), (0, 1, 3), (1, 2, 3), (0, 3, 2)]
+        kw.update(check_open="ignore", check_disconnected="ignore", check_selfintersecting="ignore", reorient_faces="skip")
     kw[attr] = value
     return C(**kw)
 
@@ -342,6 +359,8 @@ def check_case(ctx, case, value=None):
 
     rng = np.random.default_rng(case["seed"])
     cls, attr, route = case["cls"], case["attr"], case["route"]
+    if cls == "TriangularMesh" and attr in ("vertices", "faces"):
+        route = "ctor"  # no setter: vertices and faces are fixed at construction
     spec = base_spec(rng, cls)
     if value is None:
         value = make_value(rng, cls, attr, case["kind"])
@@ -403,7 +422,7 @@ def check_case(ctx, case, value=None):
             want = np.array(value, dtype=float)
             g = np.asarray(got)
             ok = (g.shape == want.shape or g.shape == np.squeeze(want).shape) and np.array_equal(np.squeeze(g), np.squeeze(want)) \
-                and (g.dtype == float or np.isscalar(got))
+                and (g.dtype == float or np.isscalar(got) or attr == "faces")
             if attr == "position":
                 ok = np.array_equal(np.asarray(obj._position), want.reshape(-1, 3)) and obj._position.dtype == float
         if not ok:
@@ -423,6 +442,8 @@ def check_case(ctx, case, value=None):
                     return
         # constructor and setter agree
         try:
+            if cls == "TriangularMesh" and attr in ("vertices", "faces"):
+                raise StopIteration  # constructor only: no second route to compare with
             with quiet():
                 orig = caller_copy if isinstance(value, np.ndarray) else value
                 other = construct(cls, spec, attr, orig) if route == "setter" else None
@@ -436,6 +457,8 @@ def check_case(ctx, case, value=None):
             if not same:
                 ctx.violation({**key, "kind": "ctor-setter-differ"}, case, {"ctor_or_this": repr(a)[:200], "other": repr(b)[:200]})
                 return
+        except StopIteration:
+            pass
         except Exception as e:
             ctx.violation({**key, "kind": "other-route-rejects", "type": type(e).__name__}, case,
                           {"value": rep[:300], "exc": exc_info(e)})
